@@ -119,6 +119,8 @@ def check_tree(data: dict, lab: Labels) -> None:
                     d = ch.index(m.uid) + 1
                     got = tree.get_depth(ln, relative_to=lm)
                     require(got == d, "get_depth-relative", f"node {n.uid} rel {m.uid}: expected {d} got {got}")
+                    got2 = tree.get_depth(ln, lm, False)  # the ancestor check switched off: same answer for a real ancestor
+                    require(got2 == d, "get_depth-relative", f"node {n.uid} rel {m.uid} check_ancestor=False: expected {d} got {got2}")
                 else:
                     _expect_raises(ValueError, lambda: tree.get_depth(ln, relative_to=lm),
                                    "get_depth-relative-non-ancestor", f"node {n.uid} rel {m.uid}")
@@ -298,6 +300,6 @@ def sys_limit() -> int:
     return sys.getrecursionlimit()
 
 
-PARTS = [Part("trees", check_tree, strategy=st_case, quick=1600, thorough=64000),
+PARTS = [Part("trees", check_tree, strategy=st_case, quick=6400, thorough=256000),
          Part("deep", check_deep, enumerate=enum_deep,
               exhaustive_note="4 chain shapes x depth 2x (thorough: and 4x) the recursion limit x {Tree(root), root.to_tree()}")]
